@@ -145,9 +145,54 @@ case-insensitive): `truex` is a variable, `trueand x` is NOT `true and x`, `2 tr
 example : parseToks [.word "truex"] = .ok (.var "truex") := keyword_prefix_ident "truex" (by decide)
 example : parseToks [.word "True"] = .ok (.var "True") := keyword_prefix_ident "True" (by decide)
 example : parseToks [.word "trueand", .word "x"] = .error .reject := by
-  simp [parseToks, parseFuel, parseExp, collect, optUnary, unRule_word (w := "trueand") (by decide), leaf, wordLeaf,
-    collectLoop, binRule, ruleOfTok, Tok.opSpelling, Gen.binaryOpAlts, spells, Gen.opSpellings, prattParse,
-    expr, nud, loop, lbp, Gen.booleanWords, isKeyword, Gen.keywords]
+  have hl : ∀ f, leaf (f+2) [.word "trueand", .word "x"] = .ok (.var "trueand", [.word "x"]) := by
+    intro f
+    rw [leaf_word _ _ _ (by intro tl; simp)]
+    simp [wordLeaf, Gen.booleanWords, isKeyword, Gen.keywords]
+  have hb : binRule (.word "x") = none := by decide
+  simp [parseToks, parseToksRaw, parseFuel, parseExp, collect, optUnary_word (w := "trueand") (by decide), hl, collectLoop, hb,
+    prattParse, expr, nud, loop, lbp]
+
+/-! ### the whole regenerated grammar data is the documented one; what the grammar rejects -/
+
+/-- The REGENERATED keyword list, operator spellings (keywords with the boundary look-ahead and the symbolic
+aliases), the alternatives of `binary_op` / `unary_op` and the boolean words are the documented ones. -/
+theorem grammar_tables_documented :
+    Gen.keywords = ["for", "min", "max", "where", "true", "false", "in", "as", "define", "let", "solve", "and", "or", "not",
+      "implies", "iff", "xor"]
+    ∧ Gen.opSpellings = [("mul", "sym", "*"), ("add", "sym", "+"), ("sub", "sym", "-"), ("div", "sym", "/"), ("neg", "sym", "-"),
+        ("and_op", "word", "and"), ("and_op", "sym", "&&"), ("or_op", "word", "or"), ("or_op", "sym", "||"),
+        ("xor_op", "word", "xor"), ("implies_op", "word", "implies"), ("implies_op", "sym", "->"),
+        ("iff_op", "word", "iff"), ("iff_op", "sym", "<->"), ("not_op", "word", "not"), ("not_op", "sym", "!")]
+    ∧ Gen.binaryOpAlts = ["mul", "add", "iff_op", "implies_op", "sub", "div", "or_op", "xor_op", "and_op"]
+    ∧ Gen.unaryOpAlts = ["neg", "not_op"]
+    ∧ Gen.booleanWords = ["true", "false"] := by decide
+
+/-- every documented spelling of a binary / prefix operator is read as that operator's rule -/
+theorem spellings_read (o : BinOp) (u : UnOp) :
+    (∀ tk ∈ binToks o, binRule tk = some (docRule o)) ∧ (∀ tk ∈ unToks u, unRule tk = some (docUnRule u)) :=
+  ⟨fun _ h => binRule_of_mem h, fun _ h => unRule_of_mem h⟩
+
+/-- **A comparison is not an operator of the expression language**: an expression followed by `<= >= = < >`
+(so in particular a comparison chain `a <= b <= c` inside an expression) is rejected. -/
+theorem comparison_in_expression_rejected {t : PExp} {ts : List Tok} {items : List Item} (h : Tk t ts items)
+    (tk : Tok) (hc : tk = .le ∨ tk = .ge ∨ tk = .eq ∨ tk = .lt ∨ tk = .gt) (rest : List Tok) :
+    parseToks (ts ++ tk :: rest) = .error .reject := by
+  have hterm : isTerm tk = true := by rcases hc with rfl | rfl | rfl | rfl | rfl <;> rfl
+  have hw : ∀ w, tk ≠ .word w := by rcases hc with rfl | rfl | rfl | rfl | rfl <;> (intro w e; cases e)
+  have := parseExp_of_main (tk_main h).1 h.toIR (closed_of_term hterm hw rest) (parseFuel (ts ++ tk :: rest)) (by simp [parseFuel])
+  simp [parseToks, parseToksRaw, this]
+
+/-- a second prefix operator is not part of the grammar (`exp = unary_op? ~ exp_leaf ~ …`): `- - x`, `- ! x`,
+`not - x`, `! ! x` are rejected -/
+theorem second_prefix_rejected (u : UnOp) (al : Bool) (tk : Tok) (h2 : tk = .minus ∨ tk = .bang) (rest : List Tok) :
+    parseToks (unTokS al u :: tk :: rest) = .error .reject := by
+  have hu : optUnary (unTokS al u :: tk :: rest) = ([.op (docUnRule u)], tk :: rest) :=
+    optUnary_of_mem (unTokS_mem al u) _ (by rcases h2 with rfl | rfl <;> (intro tl e; cases e))
+  have hf : parseFuel (unTokS al u :: tk :: rest) = (6 * rest.length + 19) + 3 := by simp [parseFuel]; omega
+  have hl : leaf (6 * rest.length + 19 + 1) (tk :: rest) = .error .reject := by
+    rcases h2 with rfl | rfl <;> simp [leaf]
+  simp only [parseToks, parseToksRaw, hf, parseExp, collect, hu, hl]
 
 /-! ### totality of the parser model -/
 
